@@ -98,15 +98,17 @@
         character reference, besides nested references.  XmlDocument::new re-reads the replacement text of
         an entity referenced in content against the production `content`; by rung 2 ([syn_content]) the
         specification reads the same text and builds the translated tree, which it then expands
-        recursively.  [markup_entities] asks of every declared internal general entity: no character
-        reference of the literal yields `&`; every reference of the literal has a Name; and, when the
-        replacement text is content for the parser, in that content (i) the names at the D04 positions
-        are Names, (ii) the attributes of an element have DISTINCT NAMES AND VALUES WITHOUT ENTITY
-        REFERENCES, (iii) every entity reference in content is a reference of the literal, (iv) every
-        character reference is a legal character.  (ii)-(iv) and the `&` condition fence off finding
-        WF13 (the implementation looks for references in the literal, treats them all as references in
-        content, and never checks constraints inside the markup of replacement text); they still
-        exclude well-formed documents whose entity values contain tags with entity references in
+        recursively.  [markup_entities] asks of every declared internal general entity: every reference of
+        the literal has a Name; when the replacement text is content for the parser, in that content
+        (i) the names at the D04 positions are Names, (ii) the attributes of an element have DISTINCT
+        NAMES AND VALUES WITHOUT ENTITY REFERENCES, (iii) every entity reference in content is a reference
+        of the literal, (iv) every character reference is a legal character; and when the replacement
+        text holds no `<`, re-read as an attribute value it is read to its end with (iii) and (iv).
+        A `&` obtained from a character reference is therefore allowed when what it starts is legal:
+        the usual <!ENTITY lt "&#38;#60;"> is covered.  These conditions fence off finding WF13 (the
+        implementation looks for references in the literal, treats them all as references in content,
+        and never checks constraints inside the markup of replacement text); they still exclude
+        well-formed documents whose entity values contain tags with entity references in
         attribute values.  [markup_entities] and [simple_entities] are
         not comparable as stated (7 keeps its own theorem); [markup_hypotheses_satisfiable] is a document
         that (7) does not cover.
@@ -128,7 +130,7 @@
 
     Missing for the full conditional theorem
       forall s d, Known_C02 s = false -> from_raw s = OOk ([], d) -> wf s = true :
-    entity values whose markup has entity references in attribute values, or with `&` from a character reference, for which the
+    entity values whose markup has entity references in attribute values, for which the
     statement needs the narrow classifier of WF13 (checks/C02.py) instead of [markup_entities] / [simple_entities].  Documents with a DOCTYPE are covered by the failing-input search of checks/C02.py
     (specification vs implementation, with expat as independent oracle of the specification). *)
 From Coq Require Import List NArith Bool.
